@@ -2643,6 +2643,23 @@ def _hasattr(ex, v, name):
     raise Unsupported('hasattr(%r)' % (v,))
 
 
+def _getattr(ex, v, name, *default):
+    """getattr(obj, 'name'[, default]) with a literal name: the field of a modelled object; None and python scalars have no
+    attributes of the repository's vocabulary"""
+    if not isinstance(name, str):
+        raise Unsupported('getattr with a computed name')
+    if isinstance(v, Obj):
+        if name in v.fields:
+            return v.fields[name]
+        if name in v.methods:
+            raise Unsupported('getattr of a modelled method')
+    elif v is not None and not isinstance(v, (bool, int, Tup, SeqV)):
+        raise Unsupported('getattr(%r)' % (v,))
+    if default:
+        return default[0]
+    raise _Raise(ExcV('AttributeError'))
+
+
 def _enumerate(ex, v):
     if isinstance(v, Tup):
         return Tup([Tup([i, x]) for i, x in enumerate(v.items)], 'list')
@@ -2682,6 +2699,7 @@ BUILTINS = {
     'abs': FnV(_abs, 'abs'), 'int': FnV(_int, 'int'), 'float': FnV(_float, 'float'), 'bool': FnV(_bool, 'bool'), 'ord': FnV(_ord, 'ord'),
     'isinstance': FnV(_isinstance, 'isinstance'), 'tuple': FnV(_tuple, 'tuple'), 'list': FnV(_list, 'list'),
     'bytes': FnV(_bytes, 'bytes'), 'hasattr': FnV(_hasattr, 'hasattr'), 'enumerate': FnV(_enumerate, 'enumerate'),
+    'getattr': FnV(_getattr, 'getattr'),
     'range': FnV(_range, 'range'), 'True': True, 'False': False, 'None': None,
     'dict': FnV(_dict_ctor, 'dict'),
     'str': FnV(lambda ex, *a: OpaqueStr(), 'str'), 'repr': FnV(lambda ex, *a: OpaqueStr(), 'repr'),
